@@ -493,28 +493,50 @@ func c16ExitStatus(r *an.Run, m *runModel) {
 	if !r.Check(runCall != nil, short(rm)+"|calls-run", rm.Pos(), "runMain calls mainCmd.Run") {
 		return
 	}
-	okStatus, printed := false, false
-	for _, cse := range an.EqCases(rm, func(v ssa.Value) bool { return v == ssa.Value(runCall) }) {
-		if !an.IsNilConst(cse.Key) {
+	// path-sensitive: on every path, the status returned is 0 iff Run's error is nil, and the error is printed when it is not
+	paths, err := an.EnumeratePathsFrom(rm.Blocks[0], func(c ssa.Value) string {
+		cmp, ok := c.(*ssa.BinOp)
+		if !ok || (cmp.Op != token.EQL && cmp.Op != token.NEQ) {
+			return ""
+		}
+		if cmp.X == ssa.Value(runCall) && an.IsNilConst(cmp.Y) || cmp.Y == ssa.Value(runCall) && an.IsNilConst(cmp.X) {
+			if cmp.Op == token.EQL {
+				return "err-nil"
+			}
+			return "err-non-nil"
+		}
+		return ""
+	}, nil, 64, true)
+	okStatus, printed := err == nil && len(paths) >= 2, true
+	for _, p := range paths {
+		isNil, known := p.Atoms["err-nil"]
+		if v, ok := p.Atoms["err-non-nil"]; ok {
+			isNil, known = !v, true
+		}
+		ret, isRet := p.End.Instrs[len(p.End.Instrs)-1].(*ssa.Return)
+		if !known || !isRet {
+			okStatus = false
 			continue
 		}
-		if rt := an.ReturnOf(cse.Else); rt != nil {
-			if k, ok := an.ConstInt(rt.Results[0]); ok && k != 0 {
-				okStatus = true
-			}
+		k, isc := an.ConstInt(p.ResolveOnPath(ret.Results[0]))
+		if !isc || (k == 0) != isNil {
+			okStatus = false
 		}
-		if rt := an.ReturnOf(cse.Target); rt != nil {
-			if k, ok := an.ConstInt(rt.Results[0]); !ok || k != 0 {
-				okStatus = false
+		if !isNil {
+			seen := false
+			for _, b := range p.Blocks {
+				for _, in := range b.Instrs {
+					if c, ok := in.(*ssa.Call); ok && an.IsCallTo(c, "fmt.Fprintln", "fmt.Fprintf", "fmt.Fprint") && an.Path(c.Call.Args[0]) == "cmd.Stderr" && derivesFrom(c, runCall) {
+						seen = true
+					}
+				}
 			}
-		}
-		for _, in := range an.FollowJumps(cse.Else).Instrs {
-			if c, ok := in.(*ssa.Call); ok && an.IsCallTo(c, "fmt.Fprintln", "fmt.Fprintf", "fmt.Fprint") && an.Path(c.Call.Args[0]) == "cmd.Stderr" && derivesFrom(c, runCall) {
-				printed = true
+			if !seen {
+				printed = false
 			}
 		}
 	}
-	r.Check(okStatus, short(rm)+"|status", rm.Pos(), "runMain returns a non-zero status exactly when Run returned an error")
+	r.Check(okStatus, short(rm)+"|status", rm.Pos(), "runMain returns a non-zero status exactly when Run returned an error (%d paths)", len(paths))
 	r.Check(printed, short(rm)+"|stderr", rm.Pos(), "runMain prints the error to cmd.Stderr")
 	mainFn := fn(r, mainP, "main")
 	if mainFn != nil {
